@@ -136,7 +136,7 @@ func runReal(sc RealScenario, dir string) world.Verdict {
 	exec.OnFinalEnter = func(uint64) { once.Do(func() { inFinal <- struct{}{} }) }
 	da := world.NewDADbl(0)
 	kv := dssync.MutexWrap(ds.NewMapDatastore())
-	seq, err := single.NewSequencerWithQueueSize(context.Background(), world.Logger(), kv, da, []byte(o.ChainID), o.BlockTime, nil, true, 1000)
+	seq, err := single.NewSequencerWithQueueSize(context.Background(), world.Logger(), kv, da, []byte(o.ChainID), o.BlockTime, seqMetrics(), true, 1000)
 	if err != nil {
 		return world.Verdict{Excluded: true}
 	}
